@@ -3,13 +3,13 @@
    its own LIB); from that step on the run is a run of the rooted mode with the discovered LIB as r0. *)
 From BV Require Import Base.Prelude Model.Block Model.ForkDB Model.Forkable Spec.Consumer Spec.Universe
   Proofs.Fk.StoreFacts Proofs.Fk.WalkFacts Proofs.Fk.LoopFacts Proofs.Fk.StoreChange Proofs.Fk.SwitchFacts
-  Proofs.Fk.FixedLib Proofs.Fk.MovingLibStore Proofs.Fk.MovingLibWalk Proofs.Fk.MovingLibLoops
+  Proofs.Fk.FixedLib Proofs.Fk.RootsBase Proofs.Fk.MovingLibStore Proofs.Fk.MovingLibWalk Proofs.Fk.MovingLibLoops
   Proofs.Fk.MovingLibInv Proofs.Fk.MovingLibFin.
 Local Open Scope N_scope.
 
 Section DiscU.
   Variable U : list block.
-  Hypothesis U_id : forall b, In b U -> bid b <> 0 /\ bparent b <> 0 /\ bid b <> bparent b.
+  Hypothesis U_id : forall b, In b U -> bid b <> 0 /\ bid b <> bparent b.
   Hypothesis U_uniq : forall x y, In x U -> In y U -> bid x = bid y -> x = y.
   Hypothesis U_up : forall x y, In x U -> In y U -> bparent x = bid y -> bnum y < bnum x.
 
@@ -192,7 +192,7 @@ Section Disc.
   Hypothesis Hhold : c_hold cfg = true.
   Hypothesis Hincl : c_incl cfg = false.
 
-  Hypothesis U_id : forall b, In b U -> bid b <> 0 /\ bparent b <> 0 /\ bid b <> bparent b.
+  Hypothesis U_id : forall b, In b U -> bid b <> 0 /\ bid b <> bparent b.
   Hypothesis U_uniq : forall x y, In x U -> In y U -> bid x = bid y -> x = y.
   Hypothesis U_up : forall x y, In x U -> In y U -> bparent x = bid y -> bnum y < bnum x.
   Hypothesis D_decl : forall b, In b U -> decl_none U b.
@@ -226,17 +226,47 @@ Section Disc.
     pre_inU : in_U (store (db s));
     pre_unsent : forall e, In e (store (db s)) -> esent e = false;
     pre_last : last_sent s = None;
-    pre_lls : last_lib_seen s = ref_empty
+    pre_lls : last_lib_seen s = ref_empty;
+    (* a stored root did not resolve its own LIB declaration (it would be the LIB): AddLink does not
+       recognise it when it is fed again, and SetLIB then fails again in the same way *)
+    pre_root : forall e, In e (store (db s)) -> bparent (eb e) = 0 ->
+                 bnum (eb e) <> first /\ bnum (eb e) <> blib (eb e)
   }.
 
   Lemma pre_init : PreInv (fs_init LNone).
   Proof. constructor; cbn; auto; try (intros e []). constructor. Qed.
 
+  Lemma pre_wf s : PreInv s -> wf_store (store (db s)).
+  Proof. intros HP. apply (wf_of_U U U_id U_up); [apply (pre_nodup s HP) | apply (pre_inU s HP)]. Qed.
+
   Lemma pre_step_old s b e : PreInv s -> In b U -> find (bid b) (store (db s)) = Some e ->
     fk_step cfg s b = (s, [], ROk).
   Proof.
-    intros HP Hb Hf. apply (fk_step_old U cfg Hincl U_id U_uniq s b e (pre_inU s HP) Hb Hf).
-    apply (wf_of_U U U_id U_up); [apply (pre_nodup s HP) | apply (pre_inU s HP)].
+    intros HP Hb Hf. pose proof HP as [Hl He Hnd HU Hun Hls Hlls Hrt]. destruct (U_id b Hb) as (H1 & H3).
+    pose proof (pre_wf s HP) as Hwf.
+    pose proof (stored_is_self U U_uniq _ _ _ HU Hb Hf) as Eb.
+    pose proof (find_some _ _ _ Hf) as [Hin _].
+    unfold fk_step. destruct (N.eqb_spec (bid b) (bparent b)); [contradiction|].
+    rewrite Hl, Hls, Hincl. cbn [rn ref_empty andb].
+    replace (bnum b <? 0) with false by lia. cbn [andb].
+    assert (Hsw : (if f_undo (c_filter cfg) && triggers cfg s b then ScssOk [] [] None else ScssOk [] [] None) = ScssOk [] [] None)
+      by (destruct (f_undo (c_filter cfg) && triggers cfg s b); reflexivity).
+    rewrite Hsw.
+    destruct (N.eq_dec (bparent b) 0) as [E0|E0].
+    - (* a root: stored again, SetLIB finds nothing again, hold *)
+      rewrite (add_link_root U U_id U_uniq _ _ _ Hnd HU Hb Hf E0 (Hun e Hin)).
+      assert (Hs : with_db s (db s) = s) by (destruct s; reflexivity). rewrite Hs.
+      assert (Hhl : has_lib (db s) = false) by (unfold has_lib; rewrite Hl; reflexivity).
+      rewrite Hhl.
+      destruct (Hrt e Hin) as [Hn1 Hn2]; [rewrite Eb; exact E0|]. rewrite Eb in Hn1, Hn2.
+      unfold set_lib. change (rn (bref b)) with (bnum b).
+      destruct (N.eqb_spec (bnum b) first) as [|_]; [contradiction|].
+      unfold block_in_chain. change (rn (bref b)) with (bnum b). change (ri (bref b)) with (bid b).
+      destruct (N.eqb_spec (bnum b) (blib b)) as [|_]; [contradiction|].
+      unfold fuel_of. cbn [bic_loop]. rewrite (link_of_stored _ _ _ Hf), Eb, E0.
+      unfold num_of. rewrite (find_zero_wf _ Hwf), He. cbn [ri ref_empty N.eqb].
+      rewrite Hs, Hhl, Hhold. reflexivity.
+    - rewrite (add_link_old U U_id U_uniq _ _ _ HU Hb Hf E0). reflexivity.
   Qed.
 
   (* ProcessBlock on a new block while no LIB is known *)
@@ -260,7 +290,7 @@ Section Disc.
           else (s2, [], ROk)
       end.
   Proof.
-    intros [Hl He Hnd HU Hun Hls Hlls] Hb Hf. destruct (U_id b Hb) as (H1 & H2 & H3).
+    intros [Hl He Hnd HU Hun Hls Hlls Hrt] Hb Hf. destruct (U_id b Hb) as (H1 & H3).
     unfold fk_step. destruct (N.eqb_spec (bid b) (bparent b)); [contradiction|].
     rewrite Hl, Hls, Hincl. cbn [rn ref_empty andb].
     replace (bnum b <? 0) with false by lia. cbn [andb].
@@ -307,7 +337,7 @@ Section Disc.
     store d' = filter (fun e => rn (libref d) - kept <=? bnum (eb e)) (store d) /\
     chain (store d') x (ri (libref d)) p.
   Proof.
-    intros Hd Hel Hc. pose proof Hd as [Hnd HU Hcoh Hnum Hextra Hlc].
+    intros Hd Hel Hc. pose proof Hd as [Hnd HU Hcoh Hnum Hextra Hlc Hrt0].
     pose proof (lib_stored_num d Hnum el Hel) as Heln.
     unfold purge_before_lib, move_lib. cbn [libref store rn ri extra].
     set (f := fun e : entry => rn (libref d) - kept <=? bnum (eb e)).
@@ -328,6 +358,7 @@ Section Disc.
              { apply U_uniq; [exact Hy | apply HU; exact Hqin | rewrite Ey; symmetry; exact Hqk]. }
              subst y. unfold f in Fq. apply N.leb_gt in Fq. lia.
         * right. exact Hlow.
+      + intros e He Hp. cbn [store] in He. apply filter_In in He as [He _]. apply Hrt0; assumption.
     - apply chain_filter; [exact Hnd | exact Hc|].
       intros e He. pose proof (above_lib d (di_wf U r0 U_id U_up d Hd) (di_up U r0 d Hd) x p Hc e He).
       unfold f. apply N.leb_le. lia.
@@ -352,7 +383,7 @@ Section Disc.
     In a (store (db s) ++ [mkEntry b false]) ->
     DbInv U (R (eb a)) (move_lib (new_db (db s) b) (R (eb a))).
   Proof.
-    intros [Hl He Hnd HU Hun Hls Hlls] Hb Hf Ha.
+    intros [Hl He Hnd HU Hun Hls Hlls Hrt] Hb Hf Ha.
     assert (Hk : ~ In (bid b) (keys (store (db s)))) by (apply find_none; exact Hf).
     assert (Hnd1 : NoDup (keys (store (db s) ++ [mkEntry b false]))) by (rewrite keys_snoc; apply nodup_snoc; assumption).
     assert (HU1 : in_U (store (db s) ++ [mkEntry b false])).
@@ -365,13 +396,14 @@ Section Disc.
       rewrite (find_in_nodup _ _ Hnd1 Ha). reflexivity.
     - left. exact He.
     - intros e Hin Hs. exfalso. apply in_app_or in Hin as [Hin|[<-|[]]]; [rewrite (Hun e Hin) in Hs|]; discriminate.
+    - intros e Hin _. apply in_app_or in Hin as [Hin|[<-|[]]]; [apply Hun; exact Hin | reflexivity].
   Qed.
 
   Lemma own_out s b : PreInv s -> In b U -> find (bid b) (store (db s)) = None ->
     DiscOut s b (let '(s', evs, ok) := process_initial_inclusive cfg b (with_db s (move_lib (new_db (db s) b) (bref b))) in
                  (s', evs, if ok then ROk else RHandlerErr)).
   Proof.
-    intros HP Hb Hf. pose proof HP as [Hl He Hnd HU Hun Hls Hlls].
+    intros HP Hb Hf. pose proof HP as [Hl He Hnd HU Hun Hls Hlls Hrt].
     set (en := mkEntry b false).
     assert (Hen : In en (store (db s) ++ [en])) by (apply in_or_app; right; left; reflexivity).
     pose proof (dbinv_found s b en HP Hb Hf Hen) as Hd2. cbn [eb en] in Hd2.
@@ -442,7 +474,7 @@ Section Disc.
   Proof.
     intros HaU HI Hlib Hls Hb Hne Hbl Hsto.
     pose proof HI as [Hd Hfin Hflast Hh]. rewrite Hls in Hh. destruct Hh as (_ & p & Hc & HS & Hsent).
-    pose proof Hd as [Hnd HU Hcoh Hnum Hextra Hlc].
+    pose proof Hd as [Hnd HU Hcoh Hnum Hextra Hlc Hrt0].
     pose proof (di_wf U (R (eb a)) U_id U_up _ Hd) as Hwf. pose proof (di_up U (R (eb a)) _ Hd) as Hup.
     assert (Hril : ri (libref (db s3)) = key a) by (rewrite Hlib; reflexivity).
     assert (Hrnl : rn (libref (db s3)) = bnum (eb a)) by (rewrite Hlib; reflexivity).
@@ -495,7 +527,7 @@ Section Disc.
     DiscOut s b (process_tail cfg (with_db s (move_lib (new_db (db s) b) (R (eb a)))) b [] [] None
                               (map seg_of (B' ++ [mkEntry b false])) (Some (seg_of a))).
   Proof.
-    intros HP Hb Hf Hc Hbl. pose proof HP as [Hl He Hnd HU Hun Hls Hlls].
+    intros HP Hb Hf Hc Hbl. pose proof HP as [Hl He Hnd HU Hun Hls Hlls Hrt].
     set (en := mkEntry b false) in *. set (l1 := store (db s) ++ [en]) in *.
     assert (Hain : In a (A ++ a :: B' ++ [en])) by (apply in_or_app; right; left; reflexivity).
     assert (Ha : In a l1) by (eapply chain_in; eassumption).
@@ -586,29 +618,35 @@ Section Disc.
       In (bid b) (keys (store (db s'))).
 
   Lemma pre_add s b : PreInv s -> In b U -> find (bid b) (store (db s)) = None ->
+    (bparent b = 0 -> bnum b <> first /\ bnum b <> blib b) ->
     PreInv (with_db s (new_db (db s) b)).
   Proof.
-    intros [Hl He Hnd HU Hun Hls Hlls] Hb Hf.
+    intros [Hl He Hnd HU Hun Hls Hlls Hrt] Hb Hf Hq.
     assert (Hk : ~ In (bid b) (keys (store (db s)))) by (apply find_none; exact Hf).
     constructor; cbn [with_db db new_db store extra libref last_sent last_lib_seen]; try assumption.
     - rewrite keys_snoc. apply nodup_snoc; assumption.
     - intros e Hin. apply in_app_or in Hin as [Hin|[<-|[]]]; [apply HU; exact Hin | exact Hb].
     - intros e Hin. apply in_app_or in Hin as [Hin|[<-|[]]]; [apply Hun; exact Hin | reflexivity].
+    - intros e Hin Hp. apply in_app_or in Hin as [Hin|[<-|[]]]; [apply Hrt; assumption | apply Hq; exact Hp].
   Qed.
 
   Lemma pre_step s b : PreInv s -> In b U ->
     PreQuiet s b (fk_step cfg s b) \/
     (~ In (bid b) (keys (store (db s))) /\ DiscOut s b (fk_step cfg s b)).
   Proof.
-    intros HP Hb. pose proof HP as [Hl He Hnd HU Hun Hls Hlls].
+    intros HP Hb. pose proof HP as [Hl He Hnd HU Hun Hls Hlls Hrt].
     destruct (find (bid b) (store (db s))) as [e|] eqn:Hf.
     { left. rewrite (pre_step_old s b e HP Hb Hf). exists s. split; [reflexivity|]. split; [exact HP|].
       split; [auto|]. split; [auto|]. apply find_is_some_in. eauto. }
     assert (Hk : ~ In (bid b) (keys (store (db s)))) by (apply find_none; exact Hf).
     rewrite (fk_step_pre s b HP Hb Hf). cbv zeta.
     set (en := mkEntry b false). set (d1 := new_db (db s) b).
-    pose proof (pre_add s b HP Hb Hf) as HP1. pose proof HP1 as [Hl1 He1 Hnd1 HU1 Hun1 _ _].
-    cbn [with_db db] in Hl1, He1, Hnd1, HU1, Hun1. fold d1 in Hl1, He1, Hnd1, HU1, Hun1.
+    assert (Hl1 : libref d1 = ref_empty) by exact Hl.
+    assert (He1 : extra d1 = None) by exact He.
+    assert (Hnd1 : NoDup (keys (store d1))).
+    { unfold d1. cbn [new_db store]. rewrite keys_snoc. apply nodup_snoc; assumption. }
+    assert (HU1 : in_U (store d1)).
+    { unfold d1. cbn [new_db store]. intros e Hin. apply in_app_or in Hin as [Hin|[<-|[]]]; [apply HU; exact Hin | exact Hb]. }
     pose proof (wf_of_U U U_id U_up _ Hnd1 HU1) as Hwf1.
     assert (Hfb : find (bid b) (store d1) = Some en).
     { unfold d1. cbn [new_db store]. apply (find_snoc_new (store (db s)) en). exact Hk. }
@@ -616,8 +654,9 @@ Section Disc.
     destruct p as [|top p' _] using rev_ind.
     { apply chain_nil_inv in Hc. rewrite <- Hc, Hfb in Hy. discriminate. }
     destruct (chain_top _ _ _ _ _ Hc) as [Hft _]. rewrite Hfb in Hft. injection Hft as <-.
-    assert (Hquiet : has_lib d1 = false -> PreQuiet s b (with_db s d1, [], ROk)).
-    { intros _. exists (with_db s d1). split; [reflexivity|]. split; [exact HP1|]. split; [intros H; contradiction|].
+    assert (Hquiet : has_lib d1 = false -> (bparent b = 0 -> bnum b <> first /\ bnum b <> blib b) ->
+                     PreQuiet s b (with_db s d1, [], ROk)).
+    { intros _ Hq. exists (with_db s d1). split; [reflexivity|]. split; [exact (pre_add s b HP Hb Hf Hq)|]. split; [intros H; contradiction|].
       cbn [with_db db d1 new_db store]. rewrite keys_snoc. split.
       - intros k Hin. apply in_or_app. left. exact Hin.
       - apply in_or_app. right. left. reflexivity. }
@@ -637,7 +676,7 @@ Section Disc.
       destruct (N.eqb_spec (bid b) 0) as [E|E]; [exfalso; apply (proj1 (U_id b Hb)); exact E|]. cbn [andb negb].
       rewrite N.eqb_refl. apply own_out; assumption. }
     unfold set_lib. change (rn (bref b)) with (bnum b).
-    destruct (bnum b =? first).
+    destruct (N.eqb_spec (bnum b) first) as [|Hnf].
     { right. split; [exact Hk|]. cbv beta iota. apply (Hown _ eq_refl). }
     destruct (decl_on_store U U_uniq U_up (store d1) p' (bid b) y en HU1 Hc Hb (D_decl b Hb)) as [(A & a & B & Heq & Hna)|Hgt].
     - (* the declared height is the height of a stored ancestor-or-self *)
@@ -684,7 +723,8 @@ Section Disc.
       { apply (Hgt en). apply in_or_app. right. left. reflexivity. }
       destruct (N.eqb_spec (bnum b) (blib b)) as [E|_]; [lia|].
       rewrite (bic_all_gt d1 (blib b) Hwf1 He1 (bid b) y (p' ++ [en]) Hc Hy); [|destruct p'; discriminate | exact Hgt | apply enough_fuel_of].
-      cbn [ri ref_empty]. rewrite N.eqb_refl. cbv beta iota. rewrite Hhl1. apply Hquiet. exact Hhl1.
+      cbn [ri ref_empty]. rewrite N.eqb_refl. cbv beta iota. rewrite Hhl1. apply Hquiet; [exact Hhl1|].
+      intros _. split; [exact Hnf | lia].
   Qed.
 
   (* ---------- whole histories ---------- *)
